@@ -207,8 +207,9 @@ class Report:
         for case in self.violations[: self.max_replays]:
             path = self.write_replay(case)
             print(f"VIOLATION property={self.prop} replay={path}")
-            brief = {k: case[k] for k in case if k in ("kind", "family", "grammar", "rule", "input", "start_pos", "mode", "expected", "got", "ops", "detail")}
-            print("  " + json.dumps(brief, default=repr, ensure_ascii=True)[:600])
+            brief = {k: case[k] for k in case if k in ("kind", "family", "grammar", "rule", "input", "start_pos", "mode", "expected", "got", "ops", "detail", "table", "stream", "text", "optimizer",
+                                                          "expr", "cp_hex", "impl", "harness", "switches", "initial", "machine", "grammar_file", "rewrite", "site_text", "probe_object")}
+            print("  " + json.dumps(brief, default=repr, ensure_ascii=True)[:700])
         if len(self.violations) > self.max_replays:
             print(f"  ... and {len(self.violations) - self.max_replays} more violations (not written)")
         summary = {k: v for k, v in cov.items() if isinstance(v, (int, float, bool, str)) and k != "rule"}
